@@ -248,14 +248,51 @@ type retainedStr struct {
 
 var retStrs []retainedStr
 
+// retainFn: the same for results that are objects: read() renders the object now and again at the end of the run.
+func retainFn(op, field string, read func() []byte) {
+	was := read()
+	retMu.Lock()
+	retSeen++
+	if len(retFns) < 5000 || retSeen%16 == 0 && len(retFns) < 20000 {
+		retFns = append(retFns, retainedFn{op, field, read, was})
+	}
+	retMu.Unlock()
+}
+
+type retainedFn struct {
+	op, field string
+	read      func() []byte
+	was       []byte
+}
+
+var retFns []retainedFn
+
 func (c *Ctx) RetainCheck() {
 	retMu.Lock()
 	defer retMu.Unlock()
-	if len(retList) == 0 && len(retStrs) == 0 {
+	if len(retList) == 0 && len(retStrs) == 0 && len(retFns) == 0 {
 		return
 	}
 	mism := 0
 	first := map[string]interface{}{"sequential": "", "concurrent": ""}
+	for _, r := range retFns {
+		var now []byte
+		if p, _ := guard(func() { now = r.read() }); p {
+			now = []byte("panic")
+		}
+		if string(now) != string(r.was) {
+			if mism == 0 {
+				cut := func(b []byte) []byte {
+					if len(b) > 600 {
+						return b[:600]
+					}
+					return b
+				}
+				first = map[string]interface{}{"sequential": fmt.Sprintf("%s.%s = %x", r.op, r.field, cut(r.was)), "concurrent": fmt.Sprintf("%x", cut(now))}
+			}
+			mism++
+		}
+	}
 	for _, r := range retStrs {
 		if r.live != string(r.was) {
 			if mism == 0 {
@@ -273,8 +310,8 @@ func (c *Ctx) RetainCheck() {
 		}
 	}
 	c.Flush()
-	c.Hist([]Event{{"op": "ConcurrentReplay", "mode": "returned slices read again at the end of the run", "calls": len(retList) + len(retStrs), "workers": 0,
-		"executions": len(retList) + len(retStrs), "skipped_budget": 0, "mismatches": mism, "first": first}})
+	c.Hist([]Event{{"op": "ConcurrentReplay", "mode": "returned slices read again at the end of the run", "calls": len(retList) + len(retStrs) + len(retFns), "workers": 0,
+		"executions": len(retList) + len(retStrs) + len(retFns), "skipped_budget": 0, "mismatches": mism, "first": first}})
 }
 
 func (c *Ctx) Thorough() bool { return c.Tier == "thorough" }
